@@ -140,6 +140,16 @@ EndClause ==
   ELSE IF Tr.c12 /\ f.elapsed > Max2(1, Len(e.wlog)) * Tr.cfg.qtmo + f.slack THEN "c12:elapsed-exceeds-timeout"
   ELSE "ok"
 
+\* a library call must not leave work behind that touches the terminal later: final.spawned = threads /
+\* timers started from inside the operation, final.late = terminal accesses made after it returned
+\* (the harness runs an intercepted timer's function once the call has returned and been observed)
+LateClause ==
+  LET f == Tr.final IN
+  IF \E i \in 1..Len(f.late) : f.late[i] = "tcsetattr" THEN "c13:late-attribute-write"
+  ELSE IF f.late # <<>> THEN "c13:late-terminal-access"
+  ELSE IF f.spawned # <<>> THEN "c13:work-left-behind"
+  ELSE "ok"
+
 Finish ==
   /\ l = N
   /\ l' = N + 1
@@ -153,5 +163,6 @@ Spec == Init /\ [][Next]_vars
 
 Done == l = N + 1
 Report == Done => PrintT(<<"VERDICT", ToJson([tid |-> tid, verdict |-> verdict, at |-> at,
-                                              want |-> want, got |-> got, exempt |-> ex])>>)
+                                              want |-> want, got |-> got, exempt |-> ex,
+                                              late |-> LateClause])>>)
 =============================================================================
